@@ -468,6 +468,50 @@ func c10BuildCases(run *core.Run) []C10Case {
 			cases = append(cases, C10Case{Kind: "minify", MT: "text/html", Cfg: cut % 6, Input: []byte("<img src=\"" + pre + "\"><a href='" + pre + "'>x</a>"), Label: fmt.Sprintf("html-prefix(uri#%d,%d)", ui, cut)})
 		}
 	}
+	// 1d. degenerate tokens in every value position of the declarations that have a handler of their own: each value
+	// token in turn is repeated, replaced by, and preceded by, an empty string / an unterminated string / an empty function / a
+	// lone sign or delimiter.  Property handlers index into their tokens; an empty token is what makes them overrun.
+	cssDecls := []string{"font:italic bold 12px/normal \"a b\",serif", "font-family:\"a b\",'c',serif", "font-weight:bold", "font:12px a",
+		"background:url(a.png) no-repeat 0 0 / auto padding-box border-box #fff", "background:url(a) padding-box border-box", "background:red content-box padding-box,url(b) border-box", "background-position:right 10% bottom 20%", "background-size:auto auto",
+		"margin:1px 2px 3px 4px", "padding:0 0 0 0", "border:1px solid #000", "border-radius:1px 2px / 3px 4px", "outline:none 0 red", "box-shadow:0 0 0 0 #000,inset 1px 1px red",
+		"transition:all 1s ease 0s", "animation:x 1s infinite", "transform:translate(1px,2px) rotate(45deg)", "flex:1 1 0%", "flex-flow:row nowrap",
+		"color:rgb(1,2,3)", "color:hsl(1,2%,3%)", "color:rgba(1 2 3 / 50%)", "fill:#ff0000", "width:calc(1px + 2px)", "content:\"a\" attr(x)", "quotes:\"a\" \"b\"",
+		"grid-template-areas:\"a b\" \"c d\"", "unicode-range:U+0-10,U+5-8", "src:local(\"a\"),url(b) format(\"c\")", "filter:alpha(opacity=50)", "text-decoration:none underline",
+		"z-index:1", "will-change:transform", "list-style:none inside url(a)", "white-space:nowrap", "text-shadow:0 0 1px red", "columns:1 auto"}
+	degenerate := []string{"\"\"", "''", "\"", "'", "()", "url()", "url(\"\")", "local()", "-", "+", ".", "#", ",", "/", "!", "\\", "0", "-0", "%", "e", "U+", "var(--)"}
+	nd := 0
+	for di, d := range cssDecls {
+		colon := strings.IndexByte(d, ':')
+		prop, toks := d[:colon], strings.Split(d[colon+1:], " ")
+		for ti := range toks {
+			for gi, g := range degenerate {
+				for mode := 0; mode < 3; mode++ {
+					vals := append([]string{}, toks...)
+					switch mode {
+					case 0:
+						vals[ti] = g
+					case 1:
+						vals[ti] = g + " " + vals[ti]
+					default: // the token itself repeated (once per token is enough)
+						if gi > 0 {
+							continue
+						}
+						vals[ti] = vals[ti] + " " + vals[ti]
+					}
+					decl := prop + ":" + strings.Join(vals, " ")
+					mt, in := "text/css", "a{"+decl+"}"
+					switch (di + ti + gi + mode) % 4 {
+					case 1:
+						mt, in = "text/css;inline=1", decl
+					case 2:
+						in = "a{" + decl // end of input right after the value
+					}
+					cases = append(cases, C10Case{Kind: []string{"minify", "bytes"}[nd%2], MT: mt, Cfg: nd % 6, Input: []byte(in), Label: fmt.Sprintf("degenerate(%s,tok%d,%q,%d)", prop, ti, g, mode)})
+					nd++
+				}
+			}
+		}
+	}
 	// 1c. HTTP wrappers: ordinary bodies and minifiers that fail early
 	for i, mt := range []string{"text/x-failfast", "text/x-halfread", "text/html", "text/css", "application/json", "text/x-failfast; a=b", "text/unknown"} {
 		for j, body := range [][]byte{[]byte("x"), bytes.Repeat([]byte("<p>some body text</p>\n"), 600), nil, bytes.Repeat([]byte("{\"a\":1} "), 20000)} {
